@@ -68,7 +68,7 @@ func c14Gen(r *Rng, id int) c14Hist {
 		case x < 76:
 			h.Ops = append(h.Ops, c14Op{Op: "vest_now", Acct: a, Amt: fmt.Sprintf("rel:%d", r.Intn(7))})
 		case x < 80:
-			h.Ops = append(h.Ops, c14Op{Op: "gov", N: r.Pick(1, 2, 4, 9, 25), Max: r.Pick(0, 1, 3, 10000), F: r.Pick(1, 3, 90, 0, -1)})
+			h.Ops = append(h.Ops, c14Op{Op: "gov", N: r.Pick(1, 2, 4, 9, 25, 0), Max: r.Pick(0, 1, 3, 10000), F: r.Pick(1, 3, 90, 0, -1)})
 		case x < 83:
 			h.Ops = append(h.Ops, c14Op{Op: "enable_now", On: r.Chance(70)})
 		default:
